@@ -244,8 +244,8 @@ func (c *hctx) retStmt(v *ast.ReturnStmt) term {
 	if c.lit != nil {
 		res = c.lit.res
 	}
-	if c.fn.ctor && c.lit == nil {
-		return c.retTerm(nil) // the new struct itself: its fields
+	if (c.fn.ctor || c.fn.retRecv) && c.lit == nil {
+		return c.retTerm(nil) // the new struct / the receiver itself: its fields
 	}
 	if len(v.Results) == 0 {
 		if c.lit != nil {
@@ -377,6 +377,9 @@ func (c *hctx) assign(v *ast.AssignStmt, k func() term) term {
 		c.lostAt(v, "assignment arity")
 	}
 	if len(v.Lhs) == 1 {
+		if t := c.sliceUpdate(v, &pre); t {
+			return wrap(pre, k())
+		}
 		// Go: the operands of the left-hand side, then the right-hand side, then the store
 		st := c.storePrep(v.Lhs[0], v, &pre)
 		e, t := c.expr(v.Rhs[0], &pre)
@@ -456,6 +459,18 @@ func (c *hctx) opAssign(l ast.Expr, r ast.Expr, op token.Token, at ast.Stmt, k f
 	switch op {
 	case token.ADD, token.SUB, token.MUL:
 		e = "(" + x + " " + op.String() + " " + y + ")"
+	case token.QUO, token.REM:
+		f, gq := "Z.quot", "go_quot"
+		if op == token.REM {
+			f, gq = "Z.rem", "go_rem"
+		}
+		if _, err := strconv.Atoi(y); err == nil && y != "0" {
+			e = "(" + f + " " + x + " " + y + ")"
+		} else {
+			t := c.tmp()
+			hbindRaw(&pre, t, gq+" "+paren(x)+" "+paren(y))
+			e = t
+		}
 	default:
 		c.lostAt(at, "assignment operator %s", op)
 	}
@@ -809,8 +824,6 @@ func (c *hctx) loop(ls *hloopSpec, k func() term) term {
 			inState[x] = true
 		}
 	}
-	// candidates for the read-only arguments: everything declared so far
-	cands := append([]*hvar{}, c.all...)
 	hasRet := hasReturn(ls.body)
 	stTuple := tuple(hnames(state))
 	exit := stTuple
@@ -850,7 +863,8 @@ func (c *hctx) loop(ls *hloopSpec, k func() term) term {
 		ro = append(ro, c.heap)
 	}
 	var roVars []*hvar
-	for _, x := range cands {
+	for _, x := range c.all { // everything declared outside the loop that the body mentions
+
 		if inState[x] || iterLoc[x] || !c.outside(x, lo, hi) {
 			continue
 		}
@@ -934,4 +948,60 @@ func stripStrings(s string) string {
 		}
 	}
 	return b.String()
+}
+
+// sliceVar: e is a slice-typed variable or receiver field
+func (c *hctx) sliceVar(e ast.Expr) *hvar {
+	switch v := ast.Unparen(e).(type) {
+	case *ast.Ident:
+		if x := c.lookup(v); x != nil && x.typ.k == "slice" {
+			return x
+		}
+	case *ast.SelectorExpr:
+		if c.isRecvIdent(v.X) {
+			if x := c.fields[v.Sel.Name]; x != nil && x.typ.k == "slice" {
+				return x
+			}
+		}
+	}
+	return nil
+}
+
+// sliceUpdate: x = append(x, e...) and x = x[lo:hi] on the SAME list-represented slice variable or
+// receiver field (exact for the elements; re-slicing beyond len is the distinguished PSliceLen)
+func (c *hctx) sliceUpdate(v *ast.AssignStmt, pre *[]hbind) bool {
+	x := c.sliceVar(v.Lhs[0])
+	switch r := ast.Unparen(v.Rhs[0]).(type) {
+	case *ast.CallExpr:
+		if !isBuiltin(r, "append", len(r.Args)) || len(r.Args) < 1 {
+			return false
+		}
+		if x == nil || c.sliceVar(r.Args[0]) != x || r.Ellipsis.IsValid() || v.Tok != token.ASSIGN {
+			c.lostAt(v, "append (only x = append(x, e...) on a slice variable or receiver field)")
+		}
+		var xs []string
+		for _, a := range r.Args[1:] {
+			y, t := c.expr(a, pre)
+			if t.k == "slice" || t.k == "func" {
+				c.lostAt(a, "appended value of type %s", t.k)
+			}
+			xs = append(xs, y)
+		}
+		*pre = append(*pre, hbind{pat: x.name, e: x.name + " ++ [" + strings.Join(xs, "; ") + "]", isLet: true, effect: true})
+		return true
+	case *ast.SliceExpr:
+		if x == nil || c.sliceVar(r.X) != x || r.Slice3 || v.Tok != token.ASSIGN {
+			c.lostAt(v, "slice expression %s (only x = x[lo:hi] on a slice variable or receiver field: aliasing)", src(r))
+		}
+		lo, hi := "0", "(zlen "+x.name+")"
+		if r.Low != nil {
+			lo, _ = c.expr(r.Low, pre)
+		}
+		if r.High != nil {
+			hi, _ = c.expr(r.High, pre)
+		}
+		*pre = append(*pre, hbind{pat: x.name, m: tRaw{"go_sub " + x.name + " " + paren(lo) + " " + paren(hi)}, effect: true})
+		return true
+	}
+	return false
 }
